@@ -115,11 +115,66 @@ def t_protected_save(E, mode):
         E.prove(r.is_error(BASICError, error.IFC) and g.cells == [], 'other formats: Illegal function call, nothing written')
 
 
+class _Lines(object):
+    _pyvc_trusted = True
+    def __init__(self, items):
+        self.items = list(items)
+    def read_line(self):
+        return self.items.pop(0) if self.items else (b'', None)
+
+class _TokBuf(object):
+    _pyvc_trusted = True
+    def __init__(self, first):
+        self.first = first
+        self.reads = 0
+    def read(self, n=1):
+        self.reads += 1
+        return self.first
+    def skip_blank(self):
+        return b''
+
+class _Tokeniser(object):
+    _pyvc_trusted = True
+    def __init__(self):
+        self.seen = []
+    def tokenise_line(self, line):
+        self.seen.append(line)
+        return _TokBuf(b'\0' if bytes(line[:1]).isdigit() else b':')
+
+
+def t_merge_lines(E, n, cr):
+    """ASCII LOAD/MERGE: every line the file layer delivers (with its line ending) is
+    tokenised and stored, whatever its length; Line buffer overflow only when the file layer
+    reports an overlong line (cr is None); end of file ends the merge."""
+    p = _program(E, [0, 0])
+    tok = _Tokeniser()
+    p.tokeniser = tok
+    stored = []
+    if E.mode == 'symbolic':
+        E.interp.contracts[program_mod.Program.store_line] = lambda I, args, kw: stored.append(args[1])
+    else:
+        p.store_line = lambda buf: stored.append(buf)
+    line = (b'10 ' + b'X' * 300)[:n] if n else b''
+    f = _Lines([(line, cr), (b'20 END', b'\r')])
+    r = E.call(p.merge, f)
+    if cr is None and n > 0:
+        E.prove(r.is_error(BASICError, error.LINE_BUFFER_OVERFLOW), 'an overlong line reported by the file layer: Line buffer overflow')
+        E.prove(stored == [], 'nothing stored')
+    elif n == 0 and cr is None:
+        E.prove(not r.raised and stored == [], 'end of file: nothing merged')
+    else:
+        E.prove(not r.raised, 'a delivered line of any length is accepted')
+        E.prove(tok.seen[:1] == [line] and len(stored) == (2 if n else 1),
+                'each delivered line is tokenised and (when it starts with a line number) stored')
+
+
 TASKS = [
     Task('converter.protect/unprotect', t_cipher_roundtrip,
          cases=[{'n': n, 'first': f} for n in (0, 1, 2, 142, 143, 144, 145, 290) for f in ('protect', 'unprotect')]),
     Task('Program.save/load', t_save_load, cases=[{'mode': m, 'n': n} for m in (b'P', b'B') for n in (2, 3, 40, 150)]),
     Task('Program.save (protected program)', t_protected_save, cases=[{'mode': m} for m in (b'P', b'B', b'A')]),
+    Task('Program.merge (delivered lines)', t_merge_lines,
+         cases=[{'n': n, 'cr': c} for n in (0, 4, 254, 255, 256, 300) for c in (b'\r', None)]),
 ]
 
 ASSUMPTIONS = [
